@@ -37,6 +37,9 @@ type kStep struct {
 	// returned - the serving call may still be winding down - another service
 	// binds the same address and is served
 	Successor bool `json:"successor,omitempty"`
+	// EndedFirst: before the step proper, Bind is called with a context that has
+	// ended already, followed by Shutdown: error or success, nothing stays behind
+	EndedFirst bool `json:"ended_first,omitempty"`
 }
 
 type kHistory struct {
@@ -183,6 +186,9 @@ func kGen(seed int64, dir string) kHistory {
 			}
 			st.Addr = string(b)
 		}
+		if r.Intn(8) == 0 && (st.Env == "none" || st.Env == "stale") {
+			st.EndedFirst = true
+		}
 		h.Steps = append(h.Steps, st)
 	}
 	// whatever happened before, the service can be bound and served again
@@ -318,6 +324,21 @@ func (k *kRunner) step(i int, st kStep) bool {
 		}
 	}
 	ctx := context.Background()
+	if st.EndedFirst {
+		cctx, cancel := context.WithCancel(ctx)
+		cancel()
+		if _, ok := k.guarded(i, "Bind (ended context)", func() error { return k.svc.Bind(cctx, st.Addr) }); !ok {
+			return false
+		}
+		if _, ok := k.guarded(i, "Shutdown", func() error { k.svc.Shutdown(); return nil }); !ok {
+			return false
+		}
+		k.count["ended-context.binds"]++
+		if p != "" && st.Env == "none" && isSocket(p) {
+			k.fail(i, "socket-file", "socket-left-by-bind-under-ended-context", "Bind(%q) under an ended context followed by Shutdown left the socket %s behind", st.Addr, p)
+			os.Remove(p)
+		}
+	}
 	served := make(chan error, 1)
 	serving := false
 	var bindErr error
